@@ -18,6 +18,7 @@ import Sonic.Model.Lazy
 import Sonic.Model.Dom
 import Sonic.Model.Pool
 import Sonic.Model.Access
+import Sonic.Model.DocBuf
 
 /-!
 # Line-protocol driver (`sonic_model`)
@@ -151,6 +152,7 @@ def step (st : DState) (line : String) : DState × String :=
           " | ".intercalate (Sonic.Model.Schema.runTexts (some e') (some e') texts) ++ (if alloc == "track" then " ledger=ok" else "")
       | _, _ => "bad-op")
   | "schema-swap" :: rest | "schema-reparse" :: rest | "schema-copy" :: rest => (st, Sonic.Model.Schema.runLine ("schema" :: rest))  -- the copy read-back is judged against the final tree
+  | "docbuf" :: rest => (st, Sonic.Model.DocBuf.runLine rest)
   | "lazy" :: _ => (st, Sonic.Model.Lazy.runLine st.W toks)
   | "ser" :: _ => (st, Sonic.Model.Serialize.runLine st.W toks)
   | "pod" :: _ => (st, Sonic.Model.OnDemand.runPodLine st.W toks)
